@@ -14,6 +14,8 @@ import (
 	"sort"
 	"strconv"
 	"strings"
+	"sync/atomic"
+	"time"
 )
 
 type kindOut struct {
@@ -36,6 +38,7 @@ func (c *ctx) thorough() bool { return c.tier == "thorough" }
 
 // emit adds one case (a Coq term) of the given kind; duplicates are dropped.
 func (c *ctx) emit(kind, term string) {
+	atomic.AddInt64(&progress, 1)
 	k := c.kinds[kind]
 	if k == nil {
 		k = &kindOut{seen: map[string]bool{}}
@@ -49,7 +52,9 @@ func (c *ctx) emit(kind, term string) {
 	k.lines = append(k.lines, term)
 }
 
-func (c *ctx) count(key string) { c.dist[key]++ }
+func (c *ctx) count(key string) { atomic.AddInt64(&progress, 1); c.dist[key]++ }
+
+var progress int64
 
 // pick scales a case count by tier.
 func (c *ctx) pick(quick, thorough int) int {
@@ -137,6 +142,20 @@ func main() {
 	}
 	c := &ctx{prop: os.Args[1], tier: os.Args[2], seed: seed, rng: rand.New(rand.NewSource(seed)),
 		kinds: map[string]*kindOut{}, dist: map[string]int{}}
+	// a generator that completes no case for three minutes is stuck in the code under test: say so and stop, instead of
+	// running into the driver's 15-minute limit
+	go func() {
+		last, since := int64(-1), time.Now()
+		for {
+			time.Sleep(5 * time.Second)
+			if p := atomic.LoadInt64(&progress); p != last {
+				last, since = p, time.Now()
+			} else if time.Since(since) > 3*time.Minute {
+				fmt.Fprintln(os.Stderr, "fatal error: harness stalled: no case completed for three minutes (the code under test does not return)")
+				os.Exit(3)
+			}
+		}
+	}()
 	f, ok := props[c.prop]
 	if !ok {
 		fmt.Fprintln(os.Stderr, "unknown property", c.prop)
